@@ -71,7 +71,8 @@ Print Assumptions C30_subchannel_transitions_allowed.
 
 (* ... and per step: READY only from CONNECTING by a successful dial; TRANSIENT_FAILURE is
    left only to IDLE by the back-off timer / ResetConnectBackoff or to SHUTDOWN by
-   Shutdown / Close; SHUTDOWN is final *)
+   Shutdown / Close (o ranges over every modelled event, UpdateAddresses included);
+   SHUTDOWN is final *)
 Theorem C30_ready_only_from_connecting : forall l o, let b := brun stB0 l in
   ast b <> 2 -> ast (bstep b o) = 2 -> ast b = 1 /\ o = BDial true.
 Proof. exact ready_only_from_connecting. Qed.
@@ -82,6 +83,13 @@ Theorem C30_tf_left_only_after_backoff_or_shutdown : forall l o, let b := brun s
   (ast (bstep b o) = 0 /\ (o = BTimer \/ o = BReset)) \/ (ast (bstep b o) = 4 /\ (o = BShutdown \/ o = BClose)).
 Proof. exact tf_exits. Qed.
 Print Assumptions C30_tf_left_only_after_backoff_or_shutdown.
+
+(* in particular an address update (SubConn.UpdateAddresses -> addrConn.updateAddrs) during the
+   back-off does not restart the connection: the step changes nothing *)
+Theorem C30_update_addrs_does_not_end_backoff : forall b fresh, ast b = 3 \/ ast b = 0 \/ ast b = 4 ->
+  bstep b (BUpdAddrs fresh) = b.
+Proof. exact upd_addrs_not_connecting. Qed.
+Print Assumptions C30_update_addrs_does_not_end_backoff.
 
 Theorem C30_subchannel_shutdown_final : forall l o, let b := brun stB0 l in ast b = 4 -> ast (bstep b o) = 4.
 Proof. exact shutdown_is_final. Qed.
@@ -109,10 +117,14 @@ Print Assumptions C30_holds_on_every_model_trace.
 
 (* non-vacuity: a watcher on IDLE is released by the first update; a sub-channel goes
    CONNECTING, TRANSIENT_FAILURE, IDLE (after the back-off), CONNECTING, READY, IDLE (server
-   closed), SHUTDOWN and the LB policy receives exactly that *)
+   closed), SHUTDOWN and the LB policy receives exactly that; an address update during the
+   back-off is not reported, one on a READY sub-channel restarts it (READY -> CONNECTING), and
+   a Shutdown racing with the end of the back-off (op 9) delivers SHUTDOWN only *)
 Example C30_witness :
   run [0; 1] [[3;0;0]; [1;1]] = Some [[0; 2]; [1; 3]] /\
   dl (brun stB0 [BConnect; BDial false; BTimer; BConnect; BDial true; BServerClose; BShutdown;
                  BDeliver; BDeliver; BDeliver; BDeliver; BDeliver; BDeliver; BDeliver]) = [1; 3; 0; 1; 2; 0; 4] /\
+  run [1] [[1]; [2;0]; [8;0]; [4]; [1]; [2;1]; [8;1]; [8;0]; [2;0]; [9]; [7]] =
+    Some [[1;1;1;1]; [1;3;3;3]; [0;3;3]; [1;0;0;0]; [1;1;1;1]; [1;2;2;2]; [0;2;2]; [1;1;1;1]; [1;3;3;3]; [1;4;4;3]; [0;4;3]] /\
   cfg_wf [0; 1] = true /\ cfg_wf [1] = true.
 Proof. vm_compute. repeat split; reflexivity. Qed.
